@@ -897,6 +897,17 @@ class Engine:
                 return lt(y, x)
             if isinstance(op, ast.GtE):
                 return z3.Or(lt(y, x), x == y)
+        if isinstance(a.ty, SetTy) and isinstance(b.ty, SetTy):
+            a, b = self.unify(a, b)
+            sub = self.pre.setf(a.ty, "subset")
+            if isinstance(op, ast.LtE):
+                return sub(a.t, b.t)
+            if isinstance(op, ast.GtE):
+                return sub(b.t, a.t)
+            if isinstance(op, ast.Lt):
+                return z3.And(sub(a.t, b.t), z3.Not(self.eq(a, b)))
+            if isinstance(op, ast.Gt):
+                return z3.And(sub(b.t, a.t), z3.Not(self.eq(a, b)))
         a2, b2 = a, b
         if FLOAT in (a.ty, b.ty):
             a2, b2 = self.coerce(a, FLOAT), self.coerce(b, FLOAT)
